@@ -20,6 +20,11 @@
   (`inconsistent_nonempty_revisited`, `inconsistent_converges`). The turns as they were before those repairs
   (`loopStepOld`, `loopStepCOld`, `loopStepIOld`) are kept for the regression theorems `blind_witness`,
   `free_witness`, `carried_noop_witness`, `carried_noop_blocks_release_witness`, `inconsistent_nonempty_witness`.
+  The model follows /repo f7d6401 too (formerly finding C03-N3): the handling pass is `C02.cycleB` — a handler declared
+  for the current reason does not inherit the progress recorded under its id for another cause (`pass_is_cycleB`,
+  `vis` = the records the pass takes over; `Env.boundH`); `completed_against_final_partial` is guarded by "not finished
+  ON THE RECORDS TAKEN OVER" only, `shared_id_regression` shows the former witness handled (the environment without
+  reason-bound handlers is the pass as it was). What f7d6401 lost: `namesake_children_leak_witness` (finding C03-N7).
 -/
 import Kopf.Lemmas.C03_Fail
 namespace Kopf.C03
@@ -260,12 +265,12 @@ theorem deletion_converges (env : Env) (wf : WF env) (hfin : AllFinal env)
 theorem all_selected_completed (env : Env) (wf : WF env) (s : State E) (hp : s.pending = true)
     (hg : s.gone = false) (hh : isHandler s = true) (hne : (selOf env s).isEmpty = false) :
     ((pass env s).closed = true ↔
-      ∀ i ∈ selOf env s, ∃ h, postState (cfgOf env s) s.P s.now s.now env.exec i = some h ∧
+      ∀ i ∈ selOf env s, ∃ h, postState (cfgOf env s) (vis env s) s.now s.now env.exec i = some h ∧
         h.r.finished = true) ∧
     ((loopStep env s).base = (if (pass env s).closed then some s.ess else s.base) ∨
      (loopStep env s).base = s.base) := by
   constructor
-  · exact closed_iff_all_finished (cfgOf env s) s.P s.now s.now env.exec (fun i hi => selOf_sub env wf s i hi) hh hne
+  · exact closed_iff_all_finished (cfgOf env s) (vis env s) s.now s.now env.exec (fun i hi => selOf_sub env wf s i hi) hh hne
   · rcases turn_cases env s hp hg with ⟨_, _, _, _, h⟩ | ⟨_, _, h⟩ | ⟨_, _, h⟩ | ⟨_, _, _, _, _, h⟩ | ⟨_, _, _, _, h⟩ |
       ⟨_, _, _, _, _, h⟩
     · right; rw [h]; rfl
@@ -276,25 +281,28 @@ theorem all_selected_completed (env : Env) (wf : WF env) (s : State E) (hp : s.p
     · left; rw [h]
       rcases handleTurn_cases env s with ⟨_, h'⟩ | ⟨d, _, _, h'⟩ | ⟨_, _, h'⟩ <;> rw [h'] <;> rfl
 
-/-- the pass of turn `k` takes handler `i` from unfinished to a final outcome on record -/
+/-- the pass of turn `k` takes handler `i` from unfinished — on the records it takes over (`vis`): a namesake's
+    finished record under the same id does not count — to a final outcome on record -/
 def CompletedIn (env : Env) (s : State E) (m k : Nat) (i : Id) : Prop :=
-  unfin (iter env k s).P i = true ∧
+  unfin (vis env (iter env k s)) i = true ∧
   ((k < m ∧ ∃ r, (iter env (k + 1) s).P i = some r ∧ r.finished = true) ∨
-   (k = m ∧ ∃ h, postState (cfgOf env (iter env k s)) (iter env k s).P (iter env k s).now (iter env k s).now
+   (k = m ∧ ∃ h, postState (cfgOf env (iter env k s)) (vis env (iter env k s)) (iter env k s).now (iter env k s).now
                    env.exec i = some h ∧ h.r.finished = true))
 
 /-- FULL STATEMENT (property): every handler selected for the outstanding change has completed against
     the object's FINAL essential state, i.e. in one of the passes of the silent tail (turns `0..m`, the
     `m`-th being the closing one; every one of them is a pass on `s.ess`):
       `∀ i ∈ selOf env s, ∃ k ≤ m, CompletedIn env s m k i`.
-    That is FALSE of the code (`absorbed_change_witness`: known finding C03-F4; `shared_id_witness`: C03-N3).
-    PROVED HERE under the exact guard: the handler is not yet recorded as finished when the last change
-    arrives. -/
+    That is FALSE of the code (`absorbed_change_witness`: known finding C03-F4).
+    PROVED HERE under the exact guard: the handler is not yet recorded as finished — by a record of ITS OWN, i.e. one
+    the pass takes over (`vis`) — when the last change arrives. (Since /repo f7d6401 the finished record of a NAMESAKE,
+    the same id registered for another cause, is no such record: the former second witness, C03-N3, is covered by
+    this theorem — `shared_id_regression`.) -/
 theorem completed_against_final_partial (env : Env) (wf : WF env)
     (hpm : env.prematch = true) (m : Nat) :
     ∀ (s : State E), s.pending = true → s.gone = false → adjusting env s = false → isHandler s = true →
       (∀ k < m, (pass env (iter env k s)).closed = false) → (pass env (iter env m s)).closed = true →
-      ∀ i ∈ selOf env s, unfin s.P i = true → ∃ k, k ≤ m ∧ CompletedIn env s m k i := by
+      ∀ i ∈ selOf env s, unfin (vis env s) i = true → ∃ k, k ≤ m ∧ CompletedIn env s m k i := by
   induction m with
   | zero =>
     intro s hp hg _ hh _ hc i hi hu
@@ -310,6 +318,8 @@ theorem completed_against_final_partial (env : Env) (wf : WF env)
     obtain ⟨now', w, h⟩ := open_next env s hp hg ha hpm hh h0
     have hcz : causeOf (loopStep env s) = causeOf s := by
       rw [h]; exact causeOf_congr s _ (by simp [nextState, h0]) rfl rfl (by simp [nextState, h0]) rfl rfl
+    have hV : vis env (loopStep env s) = (loopStep env s).P := by
+      rw [h]; exact vis_nextState env wf s hh h0 _ _ _
     cases hu' : unfin (loopStep env s).P i
     · -- finished by this very pass
       refine ⟨0, Nat.zero_le _, hu, Or.inl ⟨Nat.succ_pos _, ?_⟩⟩
@@ -330,7 +340,7 @@ theorem completed_against_final_partial (env : Env) (wf : WF env)
         rw [h]; rw [h] at hu'
         exact selOf_next_mem env s h0 _ _ _ i hi hu'
       obtain ⟨k, hk, hcomp⟩ := ih (loopStep env s) hp' hg' ha' hh'
-        (fun k hk => hopen (k + 1) (Nat.succ_lt_succ hk)) hc i hi' hu'
+        (fun k hk => hopen (k + 1) (Nat.succ_lt_succ hk)) hc i hi' (by rw [hV]; exact hu')
       refine ⟨k + 1, Nat.succ_le_succ hk, ?_⟩
       obtain ⟨h1, h2⟩ := hcomp
       refine ⟨h1, ?_⟩
@@ -372,7 +382,7 @@ theorem open_pass_leaves_event (env : Env) (s : State E) (hp : s.pending = true)
     invoked in any later turn of the same handling cycle (C02's once-per-cycle, along the closed loop). -/
 theorem invoked_once_after_last_change (env : Env) (wf : WF env) (hpm : env.prematch = true)
     (s : State E) (hp : s.pending = true) (hg : s.gone = false) (ha : adjusting env s = false)
-    (hh : isHandler s = true) (hne : NoExtras (cfgOf env s) s.P)
+    (hh : isHandler s = true) (hne : NoExtras (cfgOf env s) (vis env s))
     (i : Id) (n : Nat) (hinv : (i, n) ∈ (pass env s).invoked) (hfin : (env.exec i n).final = true)
     (hopen : (pass env s).closed = false) (k : Nat) :
     ∀ l ∈ invsOf env k (loopStep env s), ∀ m, (i, m) ∉ l := by
@@ -388,15 +398,16 @@ theorem invoked_once_after_last_change (env : Env) (wf : WF env) (hpm : env.prem
     show ((env.prematch && env.changeReq && !s.blocked && !s.marked) ||
           (!(env.prematch && env.changeReq) && s.blocked)) = false
     rw [← adjusting_eq]; exact ha
-  have hP : (loopStep env s).P = (cycle (cfgOf env s) s.P s.now s.now env.exec).P' := by rw [h]; rfl
-  rw [invs_eq env hpm k (loopStep env s) hp' hg' ha' hh', hcz', hP]
+  have hP : vis env (loopStep env s) = (cycle (cfgOf env s) (vis env s) s.now s.now env.exec).P' := by
+    rw [h]; exact vis_nextState env wf s hh hopen _ _ _
+  rw [invs_eq env wf hpm k (loopStep env s) hp' hg' ha' hh', hcz', hP]
   have hsubs : ∀ st ∈ (⟨s.now, s.now, env.exec, selOf env s, env.limits, env.lifecycle⟩ : StepV) ::
       toSteps env (stepsOf env k (loopStep env s)), ∀ j ∈ st.selected, j ∈ env.owned := by
     intro st hst j hj
     rcases List.mem_cons.1 hst with rfl | hst
     · exact selOf_sub env wf s j hj
     · exact toSteps_sub env wf k _ st hst j hj
-  exact once_per_cycle_varying env.owned (C14.reasonStr (causeOf s).reason) hh s.P hne
+  exact once_per_cycle_varying env.owned (C14.reasonStr (causeOf s).reason) hh (vis env s) hne
     ⟨s.now, s.now, env.exec, selOf env s, env.limits, env.lifecycle⟩
     (toSteps env (stepsOf env k (loopStep env s))) hsubs i n hinv hfin hopen
 
@@ -513,7 +524,7 @@ theorem skip_path_purges (env : Env) (s : State E) (hp : s.pending = true) (hg :
     (hh : isHandler s = true) (he : (selOf env s).isEmpty = true) :
     (loopStep env s).base = some s.ess ∧ (loopStep env s).fullyHandled = true ∧
     ∀ i ∈ env.owned, (loopStep env s).P i = none := by
-  obtain ⟨hc, hn⟩ := closed_purges_skip (cfgOf env s) s.P s.now s.now env.exec hh he
+  obtain ⟨hc, hn⟩ := closed_purges_skip (cfgOf env s) (vis env s) s.now s.now env.exec hh he
   have hc' : (pass env s).closed = true := hc
   rcases turn_cases env s hp hg with ⟨h1, _⟩ | ⟨h1, _⟩ | ⟨_, h1, _⟩ | ⟨_, _, h1, _⟩ | ⟨_, _, h1, _⟩ |
     ⟨_, _, _, _, _, h⟩
@@ -534,14 +545,14 @@ theorem closing_ignores_unselected_records (env : Env) (wf : WF env) (s : State 
     (hp : s.pending = true) (hg : s.gone = false)
     (ha : adjusting env s = false) (hpm : env.prematch = true) (hmk : s.marked = false)
     (hh : isHandler s = true) (hne : (selOf env s).isEmpty = false)
-    (hall : ∀ i ∈ selOf env s, ∃ h, postState (cfgOf env s) s.P s.now s.now env.exec i = some h ∧
+    (hall : ∀ i ∈ selOf env s, ∃ h, postState (cfgOf env s) (vis env s) s.now s.now env.exec i = some h ∧
       h.r.finished = true) :
     (loopStep env s).base = some s.ess ∧ (loopStep env s).fullyHandled = true ∧
     ∀ i ∈ env.owned, (loopStep env s).P i = none := by
   have hc : (pass env s).closed = true :=
-    (closed_iff_all_finished (cfgOf env s) s.P s.now s.now env.exec (fun i hi => selOf_sub env wf s i hi) hh hne).2 hall
+    (closed_iff_all_finished (cfgOf env s) (vis env s) s.now s.now env.exec (fun i hi => selOf_sub env wf s i hi) hh hne).2 hall
   have hn : ∀ i ∈ env.owned, (pass env s).P' i = none :=
-    closed_purges (cfgOf env s) s.P s.now s.now env.exec hh hne hc
+    closed_purges (cfgOf env s) (vis env s) s.now s.now env.exec hh hne hc
   rcases turn_cases env s hp hg with ⟨h1, _⟩ | ⟨h1, _⟩ | ⟨_, h1, _⟩ | ⟨_, _, h1, _⟩ | ⟨_, _, h1, _⟩ |
     ⟨_, _, _, _, _, h⟩
   · unfold adjusting at ha; simp [h1] at ha
@@ -554,13 +565,14 @@ theorem closing_ignores_unselected_records (env : Env) (wf : WF env) (s : State 
       exact ⟨by simp [nextState, hc], by simp [nextState, hc], hn⟩
 
 /-- What the pass invokes and whether it closes the cycle depends on the records of the SELECTED handlers only:
-    replace every other record of the object by anything (`Q`), the pass decides alike. -/
+    replace every other record of the object by anything (`Q`), the pass decides alike. (Whether a record is taken over
+    depends on that record alone: `C02.taken_congr_at`.) -/
 theorem pass_ignores_unselected_records (env : Env) (wf : WF env) (s : State E) (Q : C02.Store)
     (hagree : ∀ i ∈ selOf env s, s.P i = Q i) :
     (pass env { s with P := Q }).closed = (pass env s).closed ∧
     (pass env { s with P := Q }).invoked = (pass env s).invoked := by
-  have h := closed_ignores_unselected_records (cfgOf env s) s.P Q s.now s.now env.exec
-    (fun i hi => selOf_sub env wf s i hi) hagree
+  have h := closed_ignores_unselected_records (cfgOf env s) (vis env s) (vis env { s with P := Q }) s.now s.now env.exec
+    (fun i hi => selOf_sub env wf s i hi) (fun i hi => taken_congr_at (hagree i hi))
   exact ⟨h.1.symm, h.2.symm⟩
 
 /-! ### filters that read what the framework writes: the guard, made explicit -/
@@ -630,7 +642,7 @@ def retryingRec : Rec :=
 /-- handlers: `c0` (creation, no filter) and `u0` (update, label-filtered: does not match the object any more) -/
 def envW (prematch : Bool) : Env :=
   { owned := ["c0", "u0"], subs := [], sel := fun c => if c.reason = .create then ["c0"] else [],
-    initialH := fun _ => false,
+    initialH := fun _ => false, boundH := fun _ _ => true,
     limits := fun _ => ⟨none, none⟩, lifecycle := .asap, exec := fun _ _ => okOutcome,
     prematch := prematch, changeReq := false, foreignFins := false, constPatch := false, lat := 1, rtt := 1, cap := 38400 }
 
@@ -674,7 +686,7 @@ theorem stale_record_purged_instance :
 def envX : Env :=
   { owned := ["hx/spec.x", "hy/spec.y"], subs := [],
     sel := fun c => if c.reason = .update then ["hy/spec.y"] else [],
-    initialH := fun _ => false,
+    initialH := fun _ => false, boundH := fun _ _ => true,
     limits := fun _ => ⟨none, none⟩, lifecycle := .asap, exec := fun _ _ => okOutcome,
     prematch := true, changeReq := false, foreignFins := false, constPatch := false, lat := 1, rtt := 1, cap := 38400 }
 
@@ -778,7 +790,7 @@ example : adjusting (envW false) (stateW (some 0) 1) = false ∧ leftovers (envW
 /-- two update handlers, all at once; `u2` fails temporarily on its first attempt -/
 def envA : Env :=
   { owned := ["u1", "u2"], subs := [], sel := fun c => if c.reason = .update then ["u1", "u2"] else [],
-    initialH := fun _ => false,
+    initialH := fun _ => false, boundH := fun _ _ => true,
     limits := fun _ => ⟨none, none⟩, lifecycle := .allAtOnce,
     exec := fun i n => if i = "u2" ∧ n = 0 then tempOutcome 64 else okOutcome,
     prematch := true, changeReq := false, foreignFins := false, constPatch := false, lat := 1, rtt := 1, cap := 38400 }
@@ -814,7 +826,7 @@ theorem absorbed_change_witness :
 /-- one update handler -/
 def envI : Env :=
   { owned := ["u0"], subs := [], sel := fun c => if c.reason = .update then ["u0"] else [],
-    initialH := fun _ => false,
+    initialH := fun _ => false, boundH := fun _ _ => true,
     limits := fun _ => ⟨none, none⟩, lifecycle := .asap, exec := fun _ _ => okOutcome,
     prematch := true, changeReq := false, foreignFins := false, constPatch := false, lat := 1, rtt := 1, cap := 38400 }
 
@@ -977,7 +989,7 @@ theorem carried_noop_witness :
 def envS : Env :=
   { owned := ["h", "u2"], subs := [],
     sel := fun c => if c.reason = .update then ["h", "u2"] else if c.reason = .delete then ["h"] else [],
-    initialH := fun _ => false,
+    initialH := fun _ => false, boundH := fun _ _ => true,
     limits := fun _ => ⟨none, none⟩, lifecycle := .asap, exec := fun _ _ => okOutcome,
     prematch := true, changeReq := true, foreignFins := false, constPatch := false, lat := 1, rtt := 1, cap := 38400 }
 
@@ -988,25 +1000,103 @@ def stateS : State Nat :=
     base := some 0, ess := 1, marked := true, blocked := true, gone := false,
     noticed := false, fullyHandled := true, resumed := [], now := 256, pending := true, writes := 0 }
 
-/-- C03-N3 (open): another NEGATION of the full statement above `completed_against_final_partial`. The
-    deletion cause selects `h`; its record — the finished UPDATE record of the same id — is re-purposed as
-    the deletion record, so the cycle closes at once: nothing is invoked, the finalizer is released, the
-    object is gone, and the deletion handler `h` was never called. -/
-theorem shared_id_witness :
+/-- the same operator as the pass took it before /repo f7d6401: no selected handler is treated as declared for the cause,
+    every record found under a selected id is taken over and re-purposed (`C02.cycleB_unbound`) -/
+def envSold : Env := { envS with boundH := fun _ _ => false }
+
+/-- C03-N3 (repaired by /repo f7d6401), kept as a regression: formerly another NEGATION of the full statement above
+    `completed_against_final_partial`. The deletion cause selects `h`; under its id the object carries the finished
+    UPDATE record of the same function. BEFORE the repair (`envSold`) that record was re-purposed as the deletion
+    record, the cycle closed at once: nothing invoked, the finalizer released, the object gone — the deletion handler
+    `h` never called. AS OF the repair (`envS`: `h` is declared for the deletion) the record is not taken over: `h` is
+    unfinished on the records the pass takes over, is invoked with retry 0, completes in the closing pass (turn 0), and
+    only then the object is released. Replayed on the real operator: corpus/C03/N3_shared_id_update_delete.json. -/
+theorem shared_id_regression :
     isHandler stateS = true ∧ (causeOf stateS).reason = .delete ∧ "h" ∈ selOf envS stateS ∧
-    (pass envS stateS).invoked = [] ∧ (pass envS stateS).closed = true ∧
+    unfin stateS.P "h" = false ∧
+    -- before f7d6401
+    (pass envSold stateS).invoked = [] ∧ (pass envSold stateS).closed = true ∧
+    (iter envSold 1 stateS).pending = false ∧ (iter envSold 1 stateS).gone = true ∧
+    ¬ (∃ k, k ≤ 0 ∧ CompletedIn envSold stateS 0 k "h") ∧
+    -- as of f7d6401
+    vis envS stateS "h" = none ∧ vis envS stateS "u2" = stateS.P "u2" ∧ unfin (vis envS stateS) "h" = true ∧
+    (pass envS stateS).invoked = [("h", 0)] ∧ (pass envS stateS).closed = true ∧
     (iter envS 1 stateS).pending = false ∧ (iter envS 1 stateS).gone = true ∧
-    ¬ (∃ k, k ≤ 0 ∧ CompletedIn envS stateS 0 k "h") := by
-  refine ⟨by decide, by decide, by decide, by decide, by decide, by decide, by decide, ?_⟩
-  rintro ⟨k, hk, hu, _⟩
-  have : k = 0 := by omega
-  subst this
-  exact absurd hu (by decide)
+    CompletedIn envS stateS 0 0 "h" ∧
+    -- and when the deletion handler asks for a retry the object stays, held, with `h`'s OWN record on it
+    (iter { envS with exec := fun _ n => if n = 0 then tempOutcome 64 else okOutcome } 1 stateS).gone = false ∧
+    (iter { envS with exec := fun _ n => if n = 0 then tempOutcome 64 else okOutcome } 1 stateS).blocked = true ∧
+    ((iter { envS with exec := fun _ n => if n = 0 then tempOutcome 64 else okOutcome } 1 stateS).P "h").map
+      (fun r => (r.purpose, r.retries)) = some (some "delete", 1) ∧
+    (iter { envS with exec := fun _ n => if n = 0 then tempOutcome 64 else okOutcome } 3 stateS).gone = true := by
+  refine ⟨by decide, by decide, by decide, by decide, by decide, by decide, by decide, by decide, ?_,
+    by decide, by decide, by decide, by decide, by decide, by decide, by decide, ?_, by decide, by decide, by decide,
+    by decide⟩
+  · rintro ⟨k, hk, hu, _⟩
+    have : k = 0 := by omega
+    subst this
+    exact absurd hu (by decide)
+  · exact ⟨by decide, Or.inr ⟨rfl, by decide⟩⟩
+
+-- non-vacuity of `completed_against_final_partial` on the former witness: its guard holds for `h` now
+example : "h" ∈ selOf envS stateS ∧ unfin (vis envS stateS) "h" = true ∧ adjusting envS stateS = false ∧
+    (pass envS (iter envS 0 stateS)).closed = true := by
+  refine ⟨by decide, by decide, by decide, by decide⟩
+
+/-- THE PASS OF THIS LOOP IS THE CODE'S PASS: `pass` (C02's `cycle` over the records taken over, `vis`) is
+    `process_changing_cause` as of /repo f7d6401 — `C02.cycleB`, which leaves the namesakes' records out of the loaded
+    state — for every environment and state. -/
+theorem pass_is_cycleB (env : Env) (s : State E) :
+    pass env s = C02.cycleB (cfgOf env s) (env.boundH (causeOf s)) s.P s.now s.now env.exec :=
+  (C02.cycleB_eq_cycle_taken (cfgOf env s) (env.boundH (causeOf s)) s.P s.now s.now env.exec).symm
+
+/-- the operator of `envS` whose update registration of `h` ran the sub-handlers `h/a`, `h/b`; somebody else's
+    finalizer holds the object -/
+def envL : Env := { envS with subs := ["h/a", "h/b"], foreignFins := true }
+
+def doneRec (subs : List Id) : Rec :=
+  { started := 192, delayed := none, purpose := some "update", retries := 1, success := true, failure := false, subrefs := subs }
+
+/-- the update cycle is open (`h` and its children succeeded, `u2` is retrying) when the deletion request arrives -/
+def stateL : State Nat :=
+  { stateS with P := fun i => if i = "h" then some (doneRec ["h/a", "h/b"]) else if i = "u2" then some retryingRec
+                             else if i = "h/a" ∨ i = "h/b" then some (doneRec []) else none }
+
+/-- C03-N7 (open; brought in by /repo f7d6401): "no progress records remain" is FALSE for the records of the
+    sub-handlers of a namesake. The finished update record of `h` references its children `h/a`, `h/b`; the deletion
+    handler `h` (same id) does not take that record over — and with it its `subrefs` are forgotten: `h` starts from
+    scratch, succeeds, the cycle closes, the closing purge removes the owned records and the children of the states it
+    KNOWS, the finalizer is released. The object lives on (somebody else's finalizer), the FREE turn finds nothing to
+    purge (it goes by the owned records' subrefs as well): the loop is quiescent with `h/a`, `h/b` still on the
+    object — for as long as it exists. All hypotheses of `converges` hold; its conclusion is about the OWNED ids and
+    holds. Before f7d6401 (`envL` without reason-bound handlers) the re-purposed record carried the subrefs along and
+    the closing purge removed the children — but `h` was never called (C03-N3).
+    Replayed on the real operator: corpus/C03/N7_namesake_children_records_leak.json. -/
+theorem namesake_children_leak_witness :
+    AllFinal envL ∧ Uniform envL stateL ∧ stateL.pending = true ∧ stateL.marked = true ∧ stateL.blocked = true ∧
+    (pass envL stateL).invoked = [("h", 0)] ∧ (pass envL stateL).closed = true ∧
+    (iter envL 2 stateL).pending = false ∧ (iter envL 2 stateL).gone = false ∧ (iter envL 2 stateL).blocked = false ∧
+    (∀ i ∈ envL.owned, (iter envL 2 stateL).P i = none) ∧
+    (iter envL 2 stateL).P "h/a" = stateL.P "h/a" ∧ (iter envL 2 stateL).P "h/b" = stateL.P "h/b" ∧
+    (stateL.P "h/a").isSome = true ∧ "h/a" ∈ ids envL ∧
+    -- before f7d6401: the children's records went with the closing purge
+    (iter { envL with boundH := fun _ _ => false } 2 stateL).pending = false ∧
+    (iter { envL with boundH := fun _ _ => false } 2 stateL).P "h/a" = none ∧
+    (pass { envL with boundH := fun _ _ => false } stateL).invoked = [] := by
+  refine ⟨fun _ _ => rfl, ⟨"update", ?_⟩, rfl, rfl, rfl, by decide, by decide, by decide, by decide, by decide,
+    by decide, by decide, by decide, by decide, by decide, by decide, by decide, by decide⟩
+  intro i hi r hP
+  have : i = "h" ∨ i = "u2" := by simpa [envL, envS] using hi
+  rcases this with rfl | rfl
+  · have : r = doneRec ["h/a", "h/b"] := by simpa [stateL] using hP.symm
+    rw [this]; rfl
+  · have : r = retryingRec := by simpa [stateL] using hP.symm
+    rw [this]; rfl
 
 /-- a mandatory deletion handler `d0` that fails once; the object is marked and holds our finalizer -/
 def envD (foreign : Bool) : Env :=
   { owned := ["d0"], subs := [], sel := fun c => if c.reason = .delete then ["d0"] else [],
-    initialH := fun _ => false,
+    initialH := fun _ => false, boundH := fun _ _ => true,
     limits := fun _ => ⟨none, none⟩, lifecycle := .asap,
     exec := fun _ n => if n = 0 then tempOutcome 64 else okOutcome,
     prematch := true, changeReq := true, foreignFins := foreign, constPatch := false, lat := 1, rtt := 1, cap := 38400 }
